@@ -1646,7 +1646,11 @@ fn getopts_stream(w: &mut CasesWriter, rng: &mut Rng, n: usize) {
     for k in 0..n {
         let mut r = rng.fork(0x3000_0000 + k as u64);
         // option string
-        let mut letters = vec!['a', 'b', 'c', 'o', 'V'];
+        // every fourth case: option characters outside ASCII (2-, 3- and 4-byte
+        // UTF-8) and non-letters, so that byte offsets and character offsets
+        // into the option string differ
+        let wide = k % 4 == 3;
+        let mut letters = if wide { vec!['é', 'λ', 'あ', '𝄞', 'a', '7'] } else { vec!['a', 'b', 'c', 'o', 'V'] };
         let mut raw = String::new();
         if r.chance(1, 2) {
             raw.push(':');
@@ -1661,8 +1665,8 @@ fn getopts_stream(w: &mut CasesWriter, rng: &mut Rng, n: usize) {
         }
         let unknown: Vec<char> = match r.below(4) {
             0 => vec![],
-            1 => vec!['x'],
-            2 => vec!['x', 'z'],
+            1 => vec![if wide { 'ü' } else { 'x' }],
+            2 => vec!['x', if wide { 'ж' } else { 'z' }],
             _ => vec!['x', ':'],
         };
         let table = getopts_table(&raw, &unknown);
